@@ -218,6 +218,10 @@ fn rd1() -> RouteDistinguisher {
 fn rd2() -> RouteDistinguisher {
     RouteDistinguisher::FourOctetAs { admin: 4_200_000_000, assigned: 65535 }
 }
+/// type 2 (four-octet AS) carrying an AS number that would also fit type 0
+fn rd3() -> RouteDistinguisher {
+    RouteDistinguisher::FourOctetAs { admin: 65000, assigned: 1 }
+}
 fn v4a(s: &str) -> IpAddr {
     IpAddr::V4(s.parse().unwrap())
 }
@@ -387,6 +391,7 @@ pub fn nlris_named(family: Family) -> Vec<(&'static str, Nlri)> {
             v.push(("L16 rd1 10.1/16", n(&[16], rd1(), p4(10, 1, 0, 0, 16))));
             v.push(("L1048575 rd2 192.0.2/24", n(&[0xFFFFF], rd2(), p4(192, 0, 2, 0, 24))));
             v.push(("L100 rd0 198.51.100.1/32", n(&[100], rd0(), p4(198, 51, 100, 1, 32))));
+            v.push(("L100 rd3 10.3/16", n(&[100], rd3(), p4(10, 3, 0, 0, 16))));
             v.push(("L100 rd1 198.51.100.1/32", n(&[100], rd1(), p4(198, 51, 100, 1, 32))));
             v.push(("stack2 rd0 203.0.113.1/32", n(&[100, 200], rd0(), p4(203, 0, 113, 1, 32))));
             // 6 labels: 144+64+32 = 240 bits
@@ -399,6 +404,7 @@ pub fn nlris_named(family: Family) -> Vec<(&'static str, Nlri)> {
             v.push(("L16 rd1 2001:db8::/32", n(&[16], rd1(), p6("2001:db8::", 32))));
             v.push(("L1048575 rd2 2001:db8:0:1::/64", n(&[0xFFFFF], rd2(), p6("2001:db8:0:1::", 64))));
             v.push(("L100 rd0 2001:db8::1/128", n(&[100], rd0(), p6("2001:db8::1", 128))));
+            v.push(("L100 rd3 2001:db8:3::/48", n(&[100], rd3(), p6("2001:db8:3::", 48))));
             // 2 labels: 48+64+128 = 240 bits
             v.push(("stack2 rd0 2001:db8::2/128", n(&[100, 200], rd0(), p6("2001:db8::2", 128))));
         }
@@ -437,7 +443,7 @@ pub fn nlris_named(family: Family) -> Vec<(&'static str, Nlri)> {
                 rd: rd0(), esi, originating_router_ip: v4a("192.0.2.1"),
             }))));
             v.push(("t4-v6", Nlri::Evpn(EvpnNlri::EthernetSegment(EthernetSegmentRoute {
-                rd: rd0(), esi, originating_router_ip: v6a("2001:db8::1"),
+                rd: rd3(), esi, originating_router_ip: v6a("2001:db8::1"),
             }))));
             // type 5, RFC 9136 §3.1: 34 / 58
             v.push(("t5-v4", Nlri::Evpn(EvpnNlri::EthernetIpPrefix(EthernetIpPrefixRoute {
